@@ -766,7 +766,8 @@ func installRetries(n *harness.Node, r *orch.Result, seed int64, e forge.Eras) f
 			// design, which C10 and C02 cover with fresh processes.)
 			mu.Lock()
 			h := nextH
-			if inBlock && h != 0 && h != e.V20Dev && h != e.V202 && pick(h, 0) && !failedDB[h] && mix(h, 2)%3 == 0 {
+			if inBlock && h != 0 && h != e.V20Dev && h != e.V202 && pick(h, 0) && !failedDB[h] && mix(h, 2)%3 == 0 &&
+				!(retriesHistoryFocus && h >= e.V20 && h%144 == 0) { // (history-faults profiles keep their one failure of a snapshot block for a payout row)
 				failedDB[h] = true
 				mu.Unlock()
 				r.Count("blocks_applied_twice_after_a_failed_read_outside_the_transaction", 1)
